@@ -103,9 +103,7 @@ def llgrCfgOf? (t : Term) : Option (Option LlgrCfg) :=
     | _ => none) t
 
 def netsOf? : Term → Option (List Net)
-  | .list (.atom "nets" :: l) => l.mapM fun t => do
-      let n ← netOf? t
-      if n.mask ≤ 8 * n.bytes.length then some n else none
+  | .list (.atom "nets" :: l) => l.mapM netOf?        -- any length 0..255: the daemon decides what it admits
   | _ => none
 
 def groupOf? : Term → Option Group
@@ -128,17 +126,18 @@ def polT : Option (Bool × List String) → Term
   | some (b, names) => list [sym "some", list [sym (if b then "accept" else "reject"), ofList sym names]]
 
 def peerOf? : Term → Option PeerCase
-  | .list [.atom "peer", ip, exp, lasn, hold, passive, rs, rrc, cluster, down, fams, sm, pl, gr, llgr, pol, group] => do
+  | .list [.atom "peer", ip, exp, lasn, hold, passive, rs, rrc, cluster, down, fams, sm, pl, gr, llgr, pol, group, via] => do
+      let api ← (match via with | .atom "api" => some true | .atom "cfg" => some false | _ => none)
       let params : Params :=
         { addr := (← ipOf? ip), expected := (← natLe? U32 exp), localAsn := (← natLe? U32 lasn)
-          hold := (← natLe? U16 hold), passive := (← asBool? passive), rs := (← asBool? rs)
+          hold := (← natLe? (if api then U32 else U16) hold), passive := (← asBool? passive), rs := (← asBool? rs)
           rrClient := (← asBool? rrc), cluster := (← asOpt? (natLe? U32) cluster)
           adminDown := (← asBool? down), dyn := false
           fams := (← taggedPairs? "fams" famOf? (natLe? U8) fams)
           sm := (← taggedPairs? "sm" famOf? (natLe? 1048576) sm)
           pl := (← taggedPairs? "pl" famOf? (natLe? U32) pl)
           gr := (← grCfgOf? gr), llgr := (← llgrCfgOf? llgr), pol := (← polOf? pol) }
-      pure { params := params, group := (← asOpt? asSym? group) }
+      pure { params := params, group := (← asOpt? asSym? group), api := api }
   | _ => none
 
 def roleOf? : Term → Option Role
@@ -186,13 +185,25 @@ def caseOf? : Term → Option Case
     `caseOf?` only produces such cases; the guard makes that independent of the parser. -/
 def octetsOk (l : List Nat) : Bool := l.all fun x => x < 256
 
+def distinctKeys : List (Nat × Nat) → Bool
+  | [] => true
+  | e :: t => !(t.any fun x => x.1 = e.1) && distinctKeys t
+
+/-- what an AddPeer request can say (and the harness can therefore put into one): no prefix limits, no
+    GR / LLGR block (not driven through the API here), at most one send-max per family and only for
+    configured families, an add-path mode whose send bit says the same as the send-max -/
+def apiExpressible (p : Params) : Bool :=
+  p.pl.isEmpty && p.gr.isNone && p.llgr.isNone && distinctKeys p.sm
+  && p.sm.all (fun e => p.fams.any fun f => f.1 = e.1)
+  && p.fams.all (fun f => f.2 ≤ 3 && (bit1 f.2 == p.sm.any fun e => e.1 = f.1 && e.2 > 0))
+
 def wfCase : Case → Bool
   | .neg .. => true
   | .contains n a => octetsOk n.bytes && octetsOk a.bytes
   | .hist g groups peers ops =>
       (match g.confed with | some (id, _) => id != 0 | none => true)
-      && groups.all (fun gr => gr.nets.all fun n => decide (n.mask ≤ 8 * n.bytes.length) && octetsOk n.bytes)
-      && peers.all (fun pc => !pc.params.dyn)
+      && groups.all (fun gr => gr.nets.all fun n => octetsOk n.bytes)
+      && peers.all (fun pc => !pc.params.dyn && (if pc.api then apiExpressible pc.params else decide (pc.params.hold ≤ 65535)))
       && ops.all (fun op => match op with | .connect a _ => octetsOk a.bytes | _ => true)
 
 /-! ### observations -/
@@ -318,11 +329,11 @@ def setupRowOf? : Term → Option SetupRow
   | _ => none
 
 def histT (h : HistObs) : Term :=
-  tag "hist" [tag "setup" [ofList bool h.added, ofList setupRowT h.setup], ofList stepT h.steps]
+  tag "hist" [tag "setup" [ofList bool h.added, ofList (ofList bool) h.netsAdded, ofList setupRowT h.setup], ofList stepT h.steps]
 def histOf? : Term → Option HistObs
-  | .list [.atom "hist", .list [.atom "setup", added, rows], steps] => do
-      pure { added := (← asListOf? asBool? added), setup := (← asListOf? setupRowOf? rows)
-             steps := (← asListOf? stepOf? steps) }
+  | .list [.atom "hist", .list [.atom "setup", added, nets, rows], steps] => do
+      pure { added := (← asListOf? asBool? added), netsAdded := (← asListOf? (asListOf? asBool?) nets)
+             setup := (← asListOf? setupRowOf? rows), steps := (← asListOf? stepOf? steps) }
   | _ => none
 
 def obsT : Obs → Term
